@@ -113,11 +113,51 @@ static void part_threads() {
     sample("threads/work=gates/concurrent=3/uses=1: 6 rounds of {3 threads: NAND + MUX with a shared k=2 cloud key (first use constructs the thread's FFT processor), exit}; live blocks/bytes after round k+1 <= after round 2");
 }
 
+// ownership hand-off between threads: an object allocated (and used) by one thread is used and deleted by another after the first has exited —
+// no object may keep a pointer into the per-thread FFT state of the thread that created it
+#include <tgsw_functions.h>
+#include <tlwe_functions.h>
+static void part_handoff() {
+    const int N = 1024; IntPolynomial *a = new_IntPolynomial(N); TorusPolynomial *b = new_TorusPolynomial(N); for (int i = 0; i < N; i++) { a->coefs[i] = i % 7 - 3; b->coefsT[i] = (Torus32)(i * 2654435761u); }
+    static const char *NAMES[] = {"lagrange-made-by-worker", "lagrange-made-by-main-filled-by-worker", "tgsw-fft-made-by-worker", "keyset-made-by-worker", "lagrange-array-made-by-worker-used-by-second-worker"};
+    for (int sc = 0; sc < 5; sc++) for (int warm = 0; warm < 2; warm++) {
+        std::string key = fmt("handoff/%s/main-used-fft-before=%d", NAMES[sc], warm);
+        if (!take(key)) continue; if (deadline()) return; current(key);
+        Fate f = forked([&] {
+            TorusPolynomial *r = new_TorusPolynomial(N); bool ok = true; auto close = [&](const Torus32 *x, const Torus32 *y, int tol) { for (int i = 0; i < N; i++) { int64_t d = ref::sdiff(x[i], y[i]); if (d > tol || d < -tol) return false; } return true; };
+            if (warm) torusPolynomialMultFFT(r, a, b);
+            if (sc == 0) { LagrangeHalfCPolynomial *L = nullptr; std::thread t([&] { L = new_LagrangeHalfCPolynomial(N); TorusPolynomial_ifft(L, b); }); t.join(); TorusPolynomial_fft(r, L); ok = close(r->coefsT, b->coefsT, 1); TorusPolynomial_ifft(L, b); TorusPolynomial_fft(r, L); ok = ok && close(r->coefsT, b->coefsT, 1); delete_LagrangeHalfCPolynomial(L); }
+            else if (sc == 1) { LagrangeHalfCPolynomial *L = new_LagrangeHalfCPolynomial(N); std::thread t([&] { TorusPolynomial_ifft(L, b); }); t.join(); TorusPolynomial_fft(r, L); ok = close(r->coefsT, b->coefsT, 1); delete_LagrangeHalfCPolynomial(L); }
+            else if (sc == 2) { TLweParams *tp = new_TLweParams(N, 2, 0., 0.25); TGswParams *gp = new_TGswParams(2, 10, tp); TGswSampleFFT *gf = nullptr; TLweSampleFFT *tf = nullptr; TLweSample *acc = new_TLweSample(tp), *acc2 = new_TLweSample(tp);
+                std::thread t([&] { TGswSample *g = new_TGswSample(gp); tGswClear(g, gp); tGswAddMuIntH(g, 1, gp); gf = new_TGswSampleFFT(gp); tGswToFFTConvert(gf, g, gp); tf = new_TLweSampleFFT(tp); delete_TGswSample(g); }); t.join();
+                for (int i = 0; i <= 2; i++) for (int j = 0; j < N; j++) acc->a[i].coefsT[j] = (Torus32)((i * 31 + j) * 2654435761u); tLweCopy(acc2, acc, tp);
+                tGswFFTExternMulToTLwe(acc, gf, gp);   // trivial TGSW of 1: the result is acc up to the gadget truncation
+                for (int i = 0; i <= 2 && ok; i++) ok = close(acc->a[i].coefsT, acc2->a[i].coefsT, (1 << 12) + 8);
+                tLweToFFTConvert(tf, acc2, tp); tLweFromFFTConvert(acc, tf, tp); for (int i = 0; i <= 2 && ok; i++) ok = close(acc->a[i].coefsT, acc2->a[i].coefsT, 1);
+                delete_TGswSampleFFT(gf); delete_TLweSampleFFT(tf); delete_TLweSample(acc); delete_TLweSample(acc2); delete_TGswParams(gp); delete_TLweParams(tp); }
+            else if (sc == 3) { SK *sk = nullptr; TFheGateBootstrappingParameterSet *ps = nullptr; LweSample *in = nullptr;
+                std::thread t([&] { uint32_t sd[2] = {3, 16}; tfhe_random_generator_setSeed(sd, 2); LweParams *lp = new_LweParams(6, 1e-9, 0.01); TLweParams *tp = new_TLweParams(N, 1, 1e-10, 0.01); TGswParams *gp = new_TGswParams(2, 10, tp); ps = new TFheGateBootstrappingParameterSet(4, 2, lp, gp);
+                    sk = new_random_gate_bootstrapping_secret_keyset(ps); in = new_gate_bootstrapping_ciphertext_array(3, ps); for (int q = 0; q < 3; q++) bootsSymEncrypt(in + q, q & 1, sk); }); t.join();
+                LweSample *o = new_gate_bootstrapping_ciphertext(ps); bootsNAND(o, in, in + 1, &sk->cloud); ok = bootsSymDecrypt(o, sk) == 1; bootsMUX(o, in + 1, in, in + 2, &sk->cloud); ok = ok && bootsSymDecrypt(o, sk) == 0;
+                std::thread t2([&] { bootsXOR(o, in + 1, in + 2, &sk->cloud); }); t2.join(); ok = ok && bootsSymDecrypt(o, sk) == 1;
+                delete_gate_bootstrapping_ciphertext(o); delete_gate_bootstrapping_ciphertext_array(3, in); delete_gate_bootstrapping_secret_keyset(sk); delete_gate_bootstrapping_parameters(ps); }
+            else { LagrangeHalfCPolynomial *L = nullptr; std::thread t([&] { L = new_LagrangeHalfCPolynomial_array(3, N); IntPolynomial_ifft(L, a); TorusPolynomial_ifft(L + 1, b); }); t.join();
+                std::thread t2([&] { LagrangeHalfCPolynomialMul(L + 2, L, L + 1); TorusPolynomial_fft(r, L + 2); }); t2.join(); TorusPolynomial *ex = new_TorusPolynomial(N); torusPolynomialMultKaratsuba(ex, a, b); ok = close(r->coefsT, ex->coefsT, 2);
+                TorusPolynomial_fft(r, L + 1); ok = ok && close(r->coefsT, b->coefsT, 1); delete_TorusPolynomial(ex); delete_LagrangeHalfCPolynomial_array(3, L); }
+            if (!ok) violation(key, fmt("wrong result after the object changed hands between threads (%s)", NAMES[sc]));
+            delete_TorusPolynomial(r); eval(1); nontrivial(1); outcome(mix(sc, warm));
+        }, 300);
+        if (f.died()) violation(key, "process died: " + fate_str(f) + " " + f.text.substr(0, 400));
+    }
+    sample("handoff/tgsw-fft-made-by-worker/main-used-fft-before=0: a worker thread allocates and fills a TGswSampleFFT and a TLweSampleFFT and exits; the main thread then runs the FFT external product and the FFT conversions on them and deletes them");
+}
+
 int main(int argc, char **argv) {
     init(argc, argv);
     { std::string pre = std::string(VF_VARIANT) + "/" + S().backend + "/"; if (!S().only.compare(0, pre.size(), pre)) S().only = S().only.substr(pre.size()); } // replay of a cross-job digest comparison
     std::string part = opt("part", "all");
     if (part == "all" || part == "cells") part_cells();
     if (part == "all" || part == "threads") part_threads();
+    if (part == "all" || part == "handoff") part_handoff();
     return finish();
 }
